@@ -29,8 +29,8 @@ if '--tier' in args:
 if props is None:
     props = [re.match(r'(C\d+)', sid).group(1)]
 
-wt = '/tmp/seedtest-' + sid
-vcopy = '/tmp/verif-seed-' + sid
+wt = '/tmp/seedtest-%s-%d' % (sid, os.getpid())
+vcopy = '/tmp/verif-seed-%s-%d' % (sid, os.getpid())
 
 
 def sh(cmd, cwd=None, env=None, timeout=3600):
